@@ -453,8 +453,27 @@ def serial_writers(P, R, canonical=False):
                 r = rules.edge_rel(e)
                 if r and is_var(r[0]) and r[0]['name'] in h.params and r[0].get('t') in ('int', 'size_t', 'unsigned int') and r[1] in ('<', '<=') and isinstance(const_of(r[2]), int):
                     short.append(e)
-        live = h.reach([h.entry], cut_edges=short, cut_blocks=[t.bid for t in ser])
-        R.ob('C04.WMC.2', h.exit not in live, ser[0], 'every announcement with enough parameters is given a fresh serial (no path through %s avoids the assignment)' % h.name, key='announce-always-new')
+        # an announcement may be refused outright (a short line, an unreadable address, an id nothing can name) - but then
+        # before anything is done with it: on the paths that avoid the serial assignment nothing is put into the table and
+        # no request is written.  Path-sensitive: a creating helper that refuses returns NULL, and the caller's test of that
+        # result keeps its refusing path apart from the rest
+        def on_event_(st, t):
+            if t in ser:
+                return 'serial'
+            return st
+        before_, _, _, _ = h.forward('none', on_event_)
+        ser_blocks = {t.bid for t in ser}
+
+        # ... and the refusal rests on the announcement alone, not on what the table holds (an announcement "recognised" as
+        # the client already known under its id would leave that client's pending answers to whoever re-uses the id)
+        def looks_up(t):
+            if t.ev['k'] == 'call' and (t.ev.get('callee') in ('set_find', 'set_lower') or any(g.name in ('iauth_find_request', 'iauth_validate_request') for g in P.callees(t, True))):
+                return True
+            return any(isinstance(x, dict) and x.get('k') == 'callref' and x.get('callee') in ('set_find', 'set_lower', 'iauth_find_request', 'iauth_validate_request') for ex in rules.event_exprs(t.ev) for x in walk(ex))
+        acted = [t for t in h.sites() if 'none' in before_.get(t.key, set()) and t.bid not in ser_blocks and (
+            (t.ev['k'] == 'call' and t.ev.get('callee') == 'set_insert') or looks_up(t) or
+            (t.ev['k'] == 'store' and any(x.get('k') == 'mem' and x.get('rec') == core.REQ_REC for x in walk(t.ev.get('lhs') or {}))))]
+        R.ob('C04.WMC.2', not acted, acted[0] if acted else ser[0], 'every announcement that is acted on is given a fresh serial (on the paths of %s that avoid the assignment nothing is stored in a request or put into the table)' % h.name, key='announce-always-new')
     # the serial only tells instances apart while it does not repeat: the request's field is as wide as the counter
     from ..numeric import type_range
     fld = P.record_field(core.REQ_REC, 'serial') or {}
